@@ -298,7 +298,12 @@ def t1_twin(case, sess: Session):
             return
         if mp != base:
             diff = {k: (base.get(k), mp.get(k)) for k in set(base) | set(mp) if base.get(k) != mp.get(k)}
-            sess.violation("t1-parallel-counters-differ", case, diff)
+            mech = "t1-parallel-counters-differ"
+            if set(diff) <= {"cache_hits", "cache_misses", "cache_used"} and len(set(case["order"])) < len(case["order"]) and case["t1"].get("cache", {}).get("enabled"):
+                # a graph id listed twice with the stage cache on: sequentially the second listing is a cache hit, in
+                # parallel both listings race for the entry
+                mech = "t1-parallel-duplicate-graph-id:cache-hit/miss-counters-differ-from-sequential"
+            sess.violation(mech, case, diff)
             return
         if getattr(rp, "_again", None):
             sess.count("t1_twins_with_warm_recalls")
@@ -327,6 +332,10 @@ def gen_t1_case(rng):
         t1["radius_cap"] = rng.choice([1, 2, 4])
     order = list(graphs)
     rng.shuffle(order)
+    if rng.random() < 0.25:
+        # a graph id listed more than once: the sequential walk propagates it once per listing
+        for _ in range(rng.randint(1, 3)):
+            order.insert(rng.randrange(len(order) + 1), rng.choice(order))
     return {"graphs": graphs, "text": text, "t1": t1, "order": order, "workers": rng.choice([2, 3, 8]), "perf_on": rng.random() < 0.5,
             "metrics": rng.random() < 0.3, "repeats": 3, "recalls": rng.choice([0, 2, 2])}
 
